@@ -82,7 +82,7 @@ func c15Gen(r *rand.Rand, tier string) []spec.Case {
 		// after the server has stopped, reattaching must fail: through the very config object that was used
 		// before, and through a second-generation config taken from a reattached client
 		steps = append(steps, "reattach", "reattach2")
-		c := spec.C15Case{Proto: proto, Mode: "testmode", Steps: steps, ConcOps: 30}
+		c := spec.C15Case{Proto: proto, Mode: "testmode", Steps: steps, ConcOps: 30, VersionSkew: i%2 == 1}
 		out = append(out, spec.Case{Kind: "solo:testmode", P: spec.MustJSON(c)})
 	}
 	return out
